@@ -70,7 +70,12 @@ Ctx10(L, E, R) ==
    [src |-> "{{ v = " \o L \o " }}{{ v.raw() }}", out |-> R, c |-> "raw-var"],
    [src |-> "{{ [" \o L \o "][0].raw() }}", out |-> R, c |-> "raw-elem"],
    [src |-> "{{ (" \o L \o " + 'x').raw() }}", out |-> R \o "x", c |-> "raw-concat"]}
-Cases10(lits) == UNION {Ctx10(LitSrc(l, q), Cat(Escape(l)), Cat(l)) : l \in lits, q \in {"\"", "'"}}
+Cases10(lits) == UNION {{[src |-> c.src, out |-> c.out, c |-> c.c, lit |-> Cat(l)] : c \in Ctx10(LitSrc(l, q), Cat(Escape(l)), Cat(l))} : l \in lits, q \in {"\"", "'"}}
+\* The verdict for escaped contexts uses C10's own predicates (no raw angle bracket, every & starts an entity, quotes as
+\* written, unescaping gives the literal back), so that another entity spelling is not an alarm; `esc` is the
+\* specification's rendering, kept for diagnosis. raw() contexts must give exactly the original text.
+IsRaw(c) == c \in {"raw", "raw-var", "raw-elem", "raw-concat"}
+Expect10(c) == IF IsRaw(c.c) THEN [kind |-> "out", out |-> c.out] ELSE [kind |-> "escaped", out |-> c.out, lit |-> c.lit]
 
 (* ================================ C13 ================================ *)
 Seg(s, n) == [s |-> s, nl |-> n]
@@ -113,9 +118,9 @@ Cases13(n) == UNION {Place13(pre, f, post) : pre \in SeqsUpTo(Pre13, n), f \in F
 Data13 == <<[k |-> "ob", v |-> [t |-> "obj", v |-> <<[k |-> "k", v |-> [t |-> "int", b |-> "z", o |-> 1]]>>]]>>
 
 Cases ==
-  CASE Family = "c10len2" -> {[src |-> c.src, data |-> <<>>, expect |-> [kind |-> "out", out |-> c.out], tags |-> <<"c10", c.c>>] :
+  CASE Family = "c10len2" -> {[src |-> c.src, data |-> <<>>, expect |-> Expect10(c), tags |-> <<"c10", c.c>>] :
                                 c \in Cases10(SeqsUpTo(Alpha10, 2) \cup Interesting10)}
-    [] Family = "c10len3" -> {[src |-> c.src, data |-> <<>>, expect |-> [kind |-> "out", out |-> c.out], tags |-> <<"c10", c.c>>] :
+    [] Family = "c10len3" -> {[src |-> c.src, data |-> <<>>, expect |-> Expect10(c), tags |-> <<"c10", c.c>>] :
                                 c \in Cases10(SeqsUpTo(Alpha10, 3) \cup Interesting10)}
     [] Family = "c13one" -> {[src |-> c.src, data |-> Data13, expect |-> [kind |-> "err", why |-> "fault", line |-> c.line], tags |-> <<"c13", c.c>>] :
                                 c \in Cases13(1)}
